@@ -43,7 +43,7 @@ ASSUMPTIONS = [
 
 FAM = [("max", {}), ("mean", {}), ("nth", {"index": 1}), ("mode", {}), ("count_unique", {}), ("quantile", {"q": 0.25})]
 VARIANTS = [("all", {}), ("any", {}), ("count", {}), ("count_unique", {}), ("first", {}), ("last", {"drop_na": True}), ("nth", {"index": -2}),
-            ("min", {}), ("max", {}), ("max", {"drop_na": False}), ("mode", {}), ("mean", {}), ("median", {}), ("quantile", {"q": 0.9}),
+            ("min", {}), ("max", {}), ("max", {"drop_na": False}), ("mode", {}), ("mean", {}), ("median", {}), ("quantile", {"q": 0.9}), ("quantile", {"q": 0.5}),
             ("std", {}), ("var", {}), ("sum", {})]
 KINDS = ["floatna", "int", "bool", "date", "datetime"]
 NUMERIC_ONLY = {"mean", "median", "quantile", "std", "var", "sum"}
